@@ -242,8 +242,13 @@ loop:
 		for i := range bs {
 			bn := len(bs[i])
 			if sent < bn {
-				bs[i] = bs[i][sent:]
-				pos = i
+				// The slice of slices belongs to the caller, who may have handed the same
+				// batch to other connections as well: leave it as it is and continue with
+				// a list of what is left.
+				rest := make([][]byte, 0, len(bs)-i)
+				rest = append(rest, bs[i][sent:])
+				rest = append(rest, bs[i+1:]...)
+				bs, pos = rest, 0
 				break
 			}
 			sent -= bn
